@@ -66,10 +66,12 @@ def run(mod, pid, tier, seed, args, t0):
     res = mod.execute(cases, tier) if rc == 0 else None
     stats = res["stats"] if res else {}
     n = 0
+    listed = {e["id"]: e for e in vlib.known_findings(pid)}
     if res:
         for d in res["disagreements"]:
             kid = d.get("known")
-            if kid:
+            if kid and kid in listed:
+                known_lines.append("%s %s" % (kid, listed[kid]["what"]))
                 continue
             n += 1
             if n > 5:
@@ -79,8 +81,6 @@ def run(mod, pid, tier, seed, args, t0):
                 "case": d["case"], "impl_observable": d.get("impl"), "model_observable": d.get("model"),
                 "spec_verdict": d.get("spec") or "no-failing-input-found", "known_class": None})
             violations.append((path, "" if d.get("spec") else " no-failing-input-found"))
-        for k in res.get("known_hits", []):
-            known_lines.append(k)
     if proof_problems:
         path = vlib.write_replay(pid, seed, 90, {
             "property": pid, "broken": "proof obligations of Props/%s.v" % pid, "problems": proof_problems,
